@@ -388,25 +388,9 @@ theorem exec_safe {p : Prog} {m : DepthMap} (hc : checkMap p m = true) (vm : VM)
         have : vm.pc + 1 - 1 < p.positions.length := by omega
         exact ⟨_, List.getElem?_eq_getElem this⟩
       obtain ⟨pos, hpos'⟩ := hposs
-      simp only [hpos', hbt]
+      simp only [hpos']
       have main : ∀ (vm' : VM), vm'.pc = i.next → vm'.stack = vm.stack → vm'.blocks = vm.blocks →
-          Safe m (
-            let sel := i.b % 16
-            let tgt := i.b / 16 * 16
-            let blocks := vm'.result.filter (fun b => b.typ = bt)
-            if blocks.isEmpty then rtError p vm' (str "bind: no blocks of type " ++ bt)
-            else if blocks.length ≠ 1 && sel = selOne then
-              rtError p vm' (str "bind: found " ++ natDec blocks.length ++ str " blocks of type " ++ bt
-                            ++ str " but expected just 1")
-            else
-              let first := blocks.headD default
-              let last := blocks.getLastD default
-              if tgt = tgtStruct && (sel = selOne || sel = selFirst) then .next { vm' with binding := some (.struct first) }
-              else if tgt = tgtStruct && sel = selLast then .next { vm' with binding := some (.struct last) }
-              else if tgt = tgtSlice && sel = selAll then .next { vm' with binding := some (.slice blocks) }
-              else if tgt = tgtSlice && (sel = selOne || sel = selFirst) then .next { vm' with binding := some (.slice [first]) }
-              else if tgt = tgtSlice && sel = selLast then .next { vm' with binding := some (.slice [last]) }
-              else rtError p vm' (str "invalid bind target and selector :0x" ++ padLeft 2 32 (hexLower i.b))) := by
+          Safe m (bindStep p i.a i.b vm') := by
         intro vm' hpc hst hbl
         have hrt : ∀ msg, Safe m (rtError p vm' msg) :=
           fun msg => rtError_safe _ _ (by rw [hpc]; exact hn1) (by rw [hpc]; exact hnp)
@@ -414,7 +398,8 @@ theorem exec_safe {p : Prog} {m : DepthMap} (hc : checkMap p m = true) (vm : VM)
           intro bnd
           simp only [Safe, Inv, hpc, hst, hbl]
           exact hl
-        simp only
+        unfold bindStep
+        simp only [hbt]
         repeat' split
         all_goals first | exact hrt _ | exact hnx _
       cases hbn : vm.binding with
